@@ -46,7 +46,7 @@ theorem core_scope_exit_restores_frame {p : Prog} {ck : Bool} {B dA : Nat} {fa :
     (lp : Core.Jt) (hlp : lp.cont < 256 ^ p.w ∧ lp.brk < 256 ^ p.w) (hvd : lp.vd = false) (s : Core.S) (Γ : Core.Gam) (env : Core.Env) (pc o : Nat) (m : Mem) (env' : Core.Env) (tr : List Ev) (res : Core.Res)
     (hpl : PlacedAt p pc (Core.cS (Core.cxOf p ck B dA) fa lp Γ pc o s))
     (hB : pc + (Core.cS (Core.cxOf p ck B dA) fa lp Γ pc o s).length ≤ B)
-    (hinv : Core.SInv p .plain Γ env m F D o ra) (hd : Core.Disj p.w Γ) (hwf : Core.wfS false (Γ.map Prod.fst) s = true)
+    (hinv : Core.SInv p .plain Γ env m F D o ra) (hd : Core.Disj p.w Γ) (hwf : Core.wfS fns false (Γ.map Prod.fst) s = true)
     (hpk : Core.pkS p.w o s ≤ D) (ho : p.w ≤ o) (hnt : Core.noTry s = true)
     (hex : Core.exec (256 ^ p.w) (8 * p.w) fns p.w fuel D o env s = some (env', tr, res))
     (hres : res = .norm ∨ res = .returned ∨ ∃ v, res = .retv v) :
